@@ -1,7 +1,7 @@
 (* Props/C06Src.v — property C06 (track lifecycle), restated for the method bodies translated from the SOURCE TEXT of
    Track.get_next_event, Track.mute / unmute / nudge, Timeline.unschedule and Timeline.clear (Generated/TablesTrack.v;
    relation to the model: Sched/ModelSrc.v; reading of the data: Sched/SrcGlue.v, docs/TRANSLATOR3.md). *)
-From Isobar Require Import Base.Prelude Sched.Model Sched.TickFrame Sched.LifecycleProofs Sched.SrcGlue Generated.TablesTrack Sched.ModelSrc Props.C06.
+From Isobar Require Import Base.Prelude Sched.Model Sched.TickFrame Sched.LifecycleProofs Sched.SrcGlue Generated.TablesTrack Sched.ModelSrc Sched.ModelSrcTrack Props.C06.
 Local Open Scope Z_scope.
 
 (* counts: StopIteration, touching nothing, once current_event_count >= max_event_count (neither None nor 0); otherwise one
@@ -53,3 +53,9 @@ Proof.
   destruct (C06_mute_unmute cfg tl t tr H) as [A B]. repeat split; assumption.
 Qed.
 Print Assumptions C06_src_mute_unmute.
+
+(* `if self.is_muted: return` of Track.perform_event: every event performed while the track is muted makes no call, registers
+   no note-off and runs no callback *)
+Theorem C06_src_muted : forall fail nowT tr e n, t_muted tr = true -> src_track_perform_event fail nowT tr e n = (tr, [], n, PfOk).
+Proof. intros fail nowT tr e n H. rewrite src_track_perform_event_is. apply C06_muted. exact H. Qed.
+Print Assumptions C06_src_muted.
